@@ -13,33 +13,12 @@ set_option linter.unusedSimpArgs false
 namespace VelaVerif.Props.C11Roundtrip
 open VelaVerif.Tflite VelaVerif.Tflite.Writer VelaVerif.Tflite.Roundtrip VelaVerif.OpIndices VelaVerif.Gen VelaVerif.Tflite.Demo
 
-/-- **The domain of the round-trip theorem** (decidable; `Roundtrip.subDomain` holds of every subgraph the writer writes, after
-`__init__` = `prepSub`). For every written (Cpu) subgraph `ps`:
-
-* every written tensor satisfies `dataOk`: its element type is one the reader knows and its constant data has exactly the size
-  of the written shape — the reader's own `buf.view(dtype).reshape(shape)` (cf. `C11Writer.read_write_roundtrip_tensors`);
-  without it the reader raises ValueError on a file the writer produced (`roundtrip_dataOk_witness`);
-* `inputsNotProduced`: no original input is a result of a written operator — otherwise the reader stops with `Tensor.error`
-  (`roundtrip_inputsNotProduced_witness`).
-
-Not needed (the normal form says what happens instead): results that are `None` and outputs that are not written tensors are
-dropped (`renResults`, `renList` are `filterMap`s); an operator none of whose results survives vanishes (`Reader.realOps`);
-duplicate tensor names are fine (the order is by (name, insertion index)); virtual outputs of the description are cut off by the
-writer (`sgOps`, `sgOuts`) and re-created by the reader; constant weights of convolution-like operators are cloned by the reader. -/
-def RoundtripDomain (d : Desc) : Prop := roundtripDomain d = true
-
-instance (d : Desc) : Decidable (RoundtripDomain d) := inferInstanceAs (Decidable (roundtripDomain d = true))
-
-/-- no reader surgery (`Roundtrip.opOk` for every written operator): none is AssignVariable / CallOnce (virtual output), and a
-convolution-like one has its weights (operand 1) present and not constant (no reshaped clones) -/
-def NoSurgery (d : Desc) : Prop := noSurgery d = true
-
-instance (d : Desc) : Decidable (NoSurgery d) := inferInstanceAs (Decidable (noSurgery d = true))
-
-/-- **read_write_roundtrip.** For every graph description in the domain: if the writer produces a file, reading that file is the
-same computation as normalising the description — the same graph description, or the same failure (the only failures left on the
-domain are those of the reader's cloning step on constant convolution weights, e.g. weights that are not 4-dimensional).
-`normalise d` (Lemmas/TfliteRoundtrip.lean) is defined from `d` without the file:
+/-- **read_write_roundtrip_all.** For EVERY graph description: if the writer produces a file, reading that file is the same
+computation as normalising the description — the same graph description, or the same failure. The failures left are exactly the
+reader's own: an element type it does not know / constant data whose size is not that of the written shape (`checkData`, part of
+`normTensor`), an original input with a producer (`Tensor.error`, part of `normSub`), and its cloning step on constant convolution
+weights (e.g. weights that are not 4-dimensional, part of `normOps`). `normalise d` (Lemmas/TfliteRoundtrip.lean) is defined from
+`d` without the file:
 
 * tensors: for each written subgraph in order, its tensor list in the writer's order (`sgAll`: the tensor set sorted by
   (name, insertion index)), each tensor in the reader's normal form `normTensor` (name, written shape as both shapes, reader-side
@@ -59,29 +38,48 @@ domain are those of the reader's cloning step on constant convolution weights, e
   zero-length data dropped; the version string passed to the reader.
 
 So: read ∘ write = reader surgery ∘ renumbering ∘ (`src_tensor` restoration of `__init__`) ∘ tensor normal form. The serialisation
-layer itself (tensor records, buffers, operator codes, operand indices, interface lists, metadata) is exact. -/
-theorem read_write_roundtrip (d : Desc) (m : ModelT) (hd : RoundtripDomain d) (h : Writer.write d = .ok m) :
+layer itself (tensor records, buffers, operator codes, operand indices, interface lists, metadata) is exact. Results that are
+`None` and outputs that are not written tensors are dropped (`renResults`, `renList` are `filterMap`s); an operator none of whose
+results survives vanishes (`Reader.realOps`); duplicate tensor names are fine (the order is by (name, insertion index)); virtual
+outputs of the description are cut off by the writer (`sgOps`, `sgOuts`) and re-created by the reader. -/
+theorem read_write_roundtrip_all (d : Desc) (m : ModelT) (h : Writer.write d = .ok m) :
     Reader.read d.version m = normalise d := by
   unfold Writer.write at h
   obtain ⟨enum, _, h⟩ := bind_ok h
-  exact (read_writeWith d enum m hd h).1
+  exact (read_writeWith d enum m h).1
 
-/-- **read_write_roundtrip, without surgery.** If moreover no written operator is AssignVariable / CallOnce or convolution-like
-with constant weights,
-the reader accepts the file and builds the normal form, in which the operators are just the renumbered written operators
-(`normal_form_without_surgery`) and no tensor is added. -/
-theorem read_write_roundtrip_ok (d : Desc) (m : ModelT) (hd : RoundtripDomain d) (hs : NoSurgery d) (h : Writer.write d = .ok m) :
+/-- **The domain of the round-trip theorem** (decidable). For every subgraph the writer writes (Cpu placement, after `__init__` =
+`prepSub`):
+
+* `dataOk` for every written tensor: its element type is one the reader knows and its constant data has exactly the size of the
+  written shape — the reader's own `buf.view(dtype).reshape(shape)` (cf. `C11Writer.read_write_roundtrip_tensors`); without it the
+  reader raises ValueError on a file the writer produced (`roundtrip_dataOk_witness`);
+* `inputsNotProduced`: no original input is a result of a written operator — otherwise the reader stops with `Tensor.error`
+  (`roundtrip_inputsNotProduced_witness`);
+* `opOk` for every written operator (no reader surgery): it is not AssignVariable / CallOnce (the reader would add a virtual
+  output tensor), and if it is convolution-like its weights (operand 1) are present and not constant (the reader would put
+  reshaped clones in place of weights / bias and add them to the tensor list). With surgery the theorem `read_write_roundtrip_all`
+  still gives the result; only its success and its closed form are not proved in general (the clones' restoration by the writer is
+  `C11Writer.reader_clones_never_written`). -/
+def RoundtripDomain (d : Desc) : Prop := roundtripDomain d = true ∧ noSurgery d = true
+
+instance (d : Desc) : Decidable (RoundtripDomain d) := inferInstanceAs (Decidable (_ ∧ _))
+
+/-- **read_write_roundtrip.** On the domain: if the writer produces a file, the reader accepts it and builds exactly the normal
+form of the description, in which the operators are just the renumbered written operators behind their Placeholder / Const
+producers (`normal_form_without_surgery`) and no tensor is added. -/
+theorem read_write_roundtrip (d : Desc) (m : ModelT) (hd : RoundtripDomain d) (h : Writer.write d = .ok m) :
     ∃ nd, normalise d = .ok nd ∧ Reader.read d.version m = .ok nd := by
   unfold Writer.write at h
   obtain ⟨enum, _, h⟩ := bind_ok h
-  obtain ⟨h1, h2⟩ := read_writeWith d enum m hd h
-  obtain ⟨nd, h3⟩ := h2 hs
+  obtain ⟨h1, h2⟩ := read_writeWith d enum m h
+  obtain ⟨nd, h3⟩ := h2 hd.1 hd.2
   exact ⟨nd, h3, by rw [h1, h3]⟩
 
 /-- the same for any iteration order of the operator-code set (cf. `C11Writer.write_deterministic`) -/
-theorem read_writeWith_roundtrip (d : Desc) (enum : List Code) (m : ModelT) (hd : RoundtripDomain d) (h : writeWith d enum = .ok m) :
-    Reader.read d.version m = normalise d ∧ (NoSurgery d → ∃ nd, normalise d = .ok nd) :=
-  read_writeWith d enum m hd h
+theorem read_writeWith_roundtrip (d : Desc) (enum : List Code) (m : ModelT) (h : writeWith d enum = .ok m) :
+    Reader.read d.version m = normalise d ∧ (RoundtripDomain d → ∃ nd, normalise d = .ok nd) :=
+  ⟨(read_writeWith d enum m h).1, fun hd => (read_writeWith d enum m h).2 hd.1 hd.2⟩
 
 /-- without surgery the operator part of the normal form is the renumbered operator list; tensor list and virtual outputs are
 untouched -/
@@ -117,7 +115,7 @@ def demo2 : Desc :=
     metadata := [{ nameIsBytes := false, name := bytes "note", data := some (.raw []) }],
     version := bytes "3.10.0" }
 
-example : RoundtripDomain demo2 ∧ NoSurgery demo2 := by decide +kernel
+example : RoundtripDomain demo2 := by decide +kernel
 
 /-- on `demo2` writing succeeds and both sides of the theorem evaluate to the same description -/
 example : (write demo2).toOption.isSome = true ∧
@@ -153,7 +151,7 @@ def demo4 : Desc :=
       { s with ops := s.ops ++ [startup "Placeholder" 7, { conv with inputs := [some 3, some 7, none], outputs := [some 8] }]
                originalInputs := [0, 4, 7], outputTensors := [6, 8] } else s }
 
-example : RoundtripDomain demo4 ∧ NoSurgery demo4 ∧
+example : RoundtripDomain demo4 ∧
     ((write demo4).toOption.bind fun m => (Reader.read demo4.version m).toOption) = (normalise demo4).toOption ∧
     (normalise demo4).toOption.isSome = true := by decide +kernel
 
@@ -162,7 +160,7 @@ example : RoundtripDomain demo4 ∧ NoSurgery demo4 ∧
 /-- `Demo.demo` (a convolution whose weights `w` are constant; the description holds the reader's clone `w_reshape` with
 `src_tensor = w`, which the writer replaces by `w` again) is in the domain, is not surgery-free, and both sides of the theorem are
 the same successful result -/
-example : RoundtripDomain demo ∧ ¬ NoSurgery demo ∧
+example : roundtripDomain demo = true ∧ noSurgery demo = false ∧
     ((write demo).toOption.bind fun m => (Reader.read demo.version m).toOption) = (normalise demo).toOption ∧
     (normalise demo).toOption.isSome = true := by decide +kernel
 
@@ -190,7 +188,7 @@ def demo3 : Desc :=
           virtualOutputs := [(2, some 2)] } ],
     metadata := [], version := bytes "3.10.0" }
 
-example : RoundtripDomain demo3 ∧ ¬ NoSurgery demo3 ∧
+example : roundtripDomain demo3 = true ∧ noSurgery demo3 = false ∧
     ((write demo3).toOption.bind fun m => (Reader.read demo3.version m).toOption) = (normalise demo3).toOption ∧
     (normalise demo3).toOption.isSome = true := by decide +kernel
 example : (normalise demo3).toOption.map (fun nd => nd.tensors.map (·.name))
@@ -209,11 +207,11 @@ def errorOf (r : Except String Desc) : String :=
 def badData : Desc :=
   { demo2 with tensors := demo2.tensors.set 1 (t "c" [2] "int8" (some q8) (some (.raw [1, 2, 3])) 2 none) }
 
-/-- **roundtrip_dataOk_witness.** Outside `dataOk` the writer produces a file the reader rejects (ValueError of `reshape`), while
-the normal form exists: the clause cannot be dropped. -/
+/-- **roundtrip_dataOk_witness.** Outside `dataOk` the writer produces a file the reader rejects (ValueError of `reshape`; the
+normal form fails the same way): the clause cannot be dropped. -/
 theorem roundtrip_dataOk_witness : ¬ RoundtripDomain badData ∧
     (write badData).toOption.map (fun m => errorOf (Reader.read badData.version m)) = some "value" ∧
-    (normalise badData).toOption.isSome = true := by decide +kernel
+    errorOf (normalise badData) = "value" := by decide +kernel
 
 /-- `demo2` with the NPU operator's result listed as an original input -/
 def badInput : Desc :=
@@ -223,16 +221,16 @@ def badInput : Desc :=
 stops with `Tensor.error` ("vela-error"). -/
 theorem roundtrip_inputsNotProduced_witness : ¬ RoundtripDomain badInput ∧
     (write badInput).toOption.map (fun m => errorOf (Reader.read badInput.version m)) = some "vela-error" ∧
-    (normalise badInput).toOption.isSome = true := by decide +kernel
+    errorOf (normalise badInput) = "vela-error" := by decide +kernel
 
-/-- on the domain the equation can also be an equation between failures, and only the reader's cloning step can fail: `demo` with
+/-- with surgery the equation can be an equation between failures of the reader's cloning step: `demo` with
 two-dimensional constant convolution weights — writing succeeds, reading and normalising both fail with "index" -/
 def badWeightTensors : List TensorD :=
   (demo.tensors.set 1 (t "w" [2, 2] "int8" (some q8) (some (.raw [1, 2, 3, 4])) 2 none)).set 2
     (t "w_reshape" [2, 2] "int8" (some q8) (some (.digest 4 "clone")) 1 none (some 1))
 def badWeights : Desc := { demo with tensors := badWeightTensors }
 
-example : RoundtripDomain badWeights ∧
+example : roundtripDomain badWeights = true ∧
     (write badWeights).toOption.map (fun m => errorOf (Reader.read badWeights.version m)) = some "index" ∧
     errorOf (normalise badWeights) = "index" := by decide +kernel
 
